@@ -171,7 +171,15 @@ for (const line of lines) {
       if (!mn) { emit({ ...base, error: 'client has no method for ' + c.rpc, stage: 'load' }); continue; }
       try {
         const result = await cl[mn](structuredClone(c.reqObj), c.callHeaders ? { headers: c.callHeaders } : undefined);
-        emit({ ...base, request: rec, result: result === undefined ? null : result });
+        // the same call through a client whose base URL carries a path prefix (a gateway mount): the prefix stays in front
+        let prefixedURL = null;
+        if (c.op === 'client_record') {
+          try {
+            const cl2 = new Cls('http://verif.test/gw/api/', { fetch: async (url) => { prefixedURL = String(url); return new Response('{}', { status: 200, headers: { 'Content-Type': 'application/json' } }); }, defaultHeaders: c.defaultHeaders || {} });
+            await cl2[mn](structuredClone(c.reqObj), c.callHeaders ? { headers: c.callHeaders } : undefined);
+          } catch (e) { prefixedURL = 'threw: ' + String(e && e.message || e); }
+        }
+        emit({ ...base, request: rec, prefixedURL, result: result === undefined ? null : result });
       } catch (e) {
         emit({ ...base, request: rec, thrown: errInfo(e) });
       }
